@@ -164,7 +164,7 @@ Lemma after_response_tls e r : c_tls (snd (after_response e r)) = c_tls (snd r).
 Proof.
   destruct r as [[o ds] c]. unfold after_response.
   destruct o as [[| |]| |]; try reflexivity;
-    (destruct (c_h3 c && s_altsvc (e_srv e)); [destruct (c_alt c)|]; reflexivity).
+    (destruct (c_h3 c && s_altsvc (e_srv e) && (e_https e || negb altsvc_https_only)); [destruct (c_alt c)|]; reflexivity).
 Qed.
 
 Lemma do_req_tls g e c : c_tls (snd (do_req_gen g e c)) = c_tls c.
@@ -408,7 +408,7 @@ Lemma after_response_sound e c r : req_sound e c r -> req_sound e c (after_respo
 Proof.
   destruct r as [[o ds] c']. unfold after_response.
   destruct o as [[| |]| |]; try (intros H; exact H);
-    (destruct (c_h3 c' && s_altsvc (e_srv e)); [destruct (c_alt c')|]; intros H; exact H).
+    (destruct (c_h3 c' && s_altsvc (e_srv e) && (e_https e || negb altsvc_https_only)); [destruct (c_alt c')|]; intros H; exact H).
 Qed.
 
 Lemma do_req_sound g e c : route e c = None -> req_sound e c (do_req_gen g e c).
@@ -634,7 +634,7 @@ Lemma after_response_outcome e r : outcome_of (after_response e r) = outcome_of 
 Proof.
   destruct r as [[o ds] c]. unfold after_response, outcome_of.
   destruct o as [[| |]| |]; try reflexivity;
-    (destruct (c_h3 c && s_altsvc (e_srv e)); [destruct (c_alt c)|]; reflexivity).
+    (destruct (c_h3 c && s_altsvc (e_srv e) && (e_https e || negb altsvc_https_only)); [destruct (c_alt c)|]; reflexivity).
 Qed.
 
 Lemma forced_version_or_fail e c v :
@@ -812,7 +812,7 @@ Lemma after_response_inv e r :
 Proof.
   destruct r as [[o ds] c]. unfold after_response.
   destruct o as [[| |]| |]; try (intros H; exact H);
-    (destruct (c_h3 c && s_altsvc (e_srv e)); [destruct (c_alt c)|]; intros H; exact H).
+    (destruct (c_h3 c && s_altsvc (e_srv e) && (e_https e || negb altsvc_https_only)); [destruct (c_alt c)|]; intros H; exact H).
 Qed.
 
 Lemma do_req_inv g e c :
@@ -1080,7 +1080,7 @@ Lemma after_response_plain e r : c_plain_dialtls (snd (after_response e r)) = c_
 Proof.
   destruct r as [[o ds] c]. unfold after_response.
   destruct o as [[| |]| |]; try reflexivity;
-    (destruct (c_h3 c && s_altsvc (e_srv e)); [destruct (c_alt c)|]; reflexivity).
+    (destruct (c_h3 c && s_altsvc (e_srv e) && (e_https e || negb altsvc_https_only)); [destruct (c_alt c)|]; reflexivity).
 Qed.
 
 Lemma do_req_plain g e c : c_plain_dialtls (snd (do_req_gen g e c)) = c_plain_dialtls c.
@@ -1259,7 +1259,7 @@ Lemma after_response_dials e r : dials_or_fails r -> dials_or_fails (after_respo
 Proof.
   destruct r as [[o ds] c']. unfold after_response.
   destruct o as [[| |]| |]; try (intros H; exact H);
-    (destruct (c_h3 c' && s_altsvc (e_srv e)); [destruct (c_alt c')|]; intros H; exact H).
+    (destruct (c_h3 c' && s_altsvc (e_srv e) && (e_https e || negb altsvc_https_only)); [destruct (c_alt c')|]; intros H; exact H).
 Qed.
 
 (* the uniformity clause: on whatever version the dispatch ends up (forced or not, Alt-Svc learned or not), a
@@ -1678,7 +1678,7 @@ Lemma after_response_proxy_sound px e c r : proxy_sound px e c r -> proxy_sound 
 Proof.
   destruct r as [[o ds] c']. unfold after_response.
   destruct o as [[| |]| |]; try (intros H; exact H);
-    (destruct (c_h3 c' && s_altsvc (e_srv e)); [destruct (c_alt c')|]; intros H; exact H).
+    (destruct (c_h3 c' && s_altsvc (e_srv e) && (e_https e || negb altsvc_https_only)); [destruct (c_alt c')|]; intros H; exact H).
 Qed.
 
 (* the client is told to use the proxy: whatever the dispatch does with the request (the http2 transport's own
